@@ -748,8 +748,12 @@ func NewFilledFeatureReferences(byID *FeaturesByID) *FeatureReferencesByID {
 func (f *FeatureReferencesByID) findReferences(id b6.FeatureID, m *map[b6.Reference]bool) {
 	if references, ok := (*f)[id]; ok {
 		for _, reference := range references {
-			(*m)[reference] = true
-			f.findReferences(reference.Source(), m)
+			if !(*m)[reference] {
+				// References can form cycles, for example relations that
+				// are members of each other, so only follow each once.
+				(*m)[reference] = true
+				f.findReferences(reference.Source(), m)
+			}
 		}
 	}
 }
